@@ -100,7 +100,7 @@ Section Infer.
       st <- acc ;;
       let fi := jf_info jf in
       if jf_override jf then
-        match lookup (type_name (jf_decl jf)) (o_schemas o) with
+        match lookup (type_name (jf_type jf)) (o_schemas o) with
         | Some (Some ov) =>
             if negb (str_eqb (s_type ov) (lit "object"%lit)) then Err
             else if negb (is_zero_schema (set_properties None (set_type [] ov))) then Err
